@@ -6,7 +6,10 @@ T: the whole pipeline (place, allocate, route, routing_tree_to_tables, minimise;
    wrappers) is run on generated problems; the resulting tables are *executed* by TLC (Multicast!Propagate) for
    several keys of every net and judged by MulticastTrace.tla.
 """
+import os
 import random
+import signal
+import threading
 import warnings
 
 from rig.netlist import Net
@@ -210,8 +213,140 @@ def gen_problem(rng, chk):
     return vr, nets, net_keys, m, cons
 
 
-def system_info_of(machine, busy):
-    """a SystemInfo describing `machine` (all cores idle except `busy` {(x, y): set(cores)})"""
+# ---------------------------------------------------------------------------------------------------------------
+# further input families (run after the main problems, so that the main random stream is unchanged)
+
+def gen_broadcast_problem(rng, chk):
+    """broadcast-sized nets on a multi-board-sized, non-square, faulty machine: one two-core vertex per chip on
+    30-80 % of the chips and 1-3 nets that reach half to all of them.  The trees have far more nodes than the
+    router's neighbourhood scan has cells (radius 1 or 2), are cut in many places at once, and the repaired pieces
+    are large enough for a repair path to run through the inside of the piece it reconnects."""
+    m = None
+    for _ in range(30):
+        w, h = rng.randint(8, 13), rng.randint(8, 13)
+        dead_links = set(gen.mesh_dead_links(w, h)) if rng.random() < 0.4 else set()
+        pd = rng.choice((0, 0.03, 0.06))
+        dead_chips = {(x, y) for x in range(w) for y in range(h) if rng.random() < pd}
+        fr = rng.choice((0.05, 0.1, 0.15, 0.2))
+        for (x, y, l) in gen.all_links(w, h):
+            if rng.random() < fr:
+                dead_links.add((x, y, l))
+                if rng.random() < 0.5:
+                    dx, dy = l.to_vector()
+                    dead_links.add(((x + dx) % w, (y + dy) % h, l.opposite))
+        cand = Machine(w, h, chip_resources={Cores: 3, SDRAM: 64}, dead_chips=dead_chips, dead_links=dead_links)
+        if gen.is_connected(cand):
+            m = cand
+            break
+    if m is None:
+        return None
+    nchips = len(list(m))
+    nv = max(2, int(nchips * rng.uniform(0.3, 0.8)))
+    vr = {"v%d" % i: {Cores: 2, SDRAM: 1} for i in range(nv)}
+    names = list(vr)
+    nnets = rng.randint(1, 3)
+    keys = gen_keys(rng, nnets)
+    if keys is None:
+        return None
+    nets, net_keys = [], {}
+    for i in range(nnets):
+        n = Net(rng.choice(names), rng.sample(names, rng.randint(nv // 2, nv)))
+        nets.append(n)
+        net_keys[n] = keys[i]
+    return vr, nets, net_keys, m, []
+
+
+def gen_corridor_problem(rng, chk):
+    """a long, narrow machine with as many vertices as chips and many nets with neighbouring keys, most of them
+    passing straight through several chips: per-chip tables in which entries that default routing can replace sit
+    next to groups of entries with one route - where a merge that catches a passing key, made on one chip only
+    because that chip is short of router space, shows"""
+    w, h = rng.randint(4, 8), rng.choice((1, 1, 2))
+    if rng.random() < 0.5:
+        w, h = h, w
+    m = Machine(w, h, chip_resources={Cores: 18, SDRAM: 64},
+                dead_links=set(gen.mesh_dead_links(w, h)) if rng.random() < 0.5 else set())
+    nv = w * h
+    vr = {"v%d" % i: {Cores: rng.randint(3, 5)} for i in range(nv)}
+    names = list(vr)
+    # every vertex pinned to a chip of its own, whichever placer runs
+    cons = [LocationConstraint(v, xy) for v, xy in zip(names, sorted(m))]
+    nnets = rng.randint(8, 18)
+    base = rng.randrange(0, (1 << KW) - nnets)
+    fixed = 0xffffffff & ~((1 << KW) - 1)
+    keys = [(base + i, 0xffffffff) for i in range(nnets)]
+    rng.shuffle(keys)
+    nets, net_keys = [], {}
+    for i in range(nnets):
+        n = Net(rng.choice(names), [rng.choice(names) for _ in range(rng.choice((1, 1, 2)))])
+        nets.append(n)
+        net_keys[n] = keys[i]
+    return vr, nets, net_keys, m, cons
+
+
+def coreless_variant(rng, p):
+    """some ordinary vertices of the problem (sources and sinks of its nets among them) need no core at all: memory
+    only, zero cores, or nothing - and, unlike the device vertices, carry no route-endpoint constraint.  Nothing is
+    allocated to them, so a packet for them must reach their chip and no core there."""
+    vr, nets, net_keys, m, cons = p
+    tied = set()
+    for c in cons:
+        tied.update(getattr(c, "vertices", ()) or ())
+        if getattr(c, "vertex", None) is not None:
+            tied.add(c.vertex)
+    free = [v for v in vr if v not in tied and vr[v].get(Cores, 0) > 0]
+    if not free:
+        return p
+    sinks = [v for v in free if any(v in n.sinks for n in nets)]
+    chosen = {rng.choice(sinks or free)} | {v for v in free if rng.random() < 0.3}
+    vr = dict(vr)
+    for v in chosen:
+        k = rng.randint(1, 8)
+        vr[v] = rng.choice(({SDRAM: k}, {Cores: 0, SDRAM: k}, {Cores: 0}, {}))
+    return vr, nets, net_keys, m, cons
+
+
+N_PLAIN_PLACERS = 5        # PLACERS[1:6]: the placers that do not anneal (broadcast-sized problems)
+
+
+def gen_extra_problem(rng, chk, j):
+    """-> (problem or None, family, hints)"""
+    if j % 11 == 0:
+        return gen_broadcast_problem(rng, chk), "broadcast", dict(placer=1 + rng.randrange(N_PLAIN_PLACERS),
+                                                                  radius=rng.choice((1, 2, 2)))
+    if j % 2 == 1:
+        p = gen_problem(rng, chk)
+        return (None if p is None else coreless_variant(rng, p)), "coreless", {}
+    # long tables, which the wrapper then has to fit into little router space
+    if j % 4 == 0:
+        return gen_corridor_problem(rng, chk), "corridor", {}
+    return gen_dense_problem(rng, chk), "plain", {}
+
+
+def tight_router_space(rng, tabs, chips):
+    """free router space per chip for a second run of the wrapper on the same problem: one to three of the chips
+    with the longest tables report less space than the unminimised table needs, the others exactly enough, one more
+    than enough, or plenty"""
+    by_len = sorted(tabs, key=lambda c: (-len(tabs[c]), c))
+    free = {}
+    for c in chips:
+        n = len(tabs.get(c, ()))
+        free[c] = rng.choice((1023, 1023, n, n + 1))
+    for c in rng.sample(by_len[:5], min(len(by_len[:5]), rng.randint(1, 3))):
+        n = len(tabs[c])
+        free[c] = max(1, n - rng.choice((1, 2, 3, max(1, n // 3), max(1, n // 2), max(1, n // 2), max(1, 2 * n // 3))))
+    return free
+
+
+METHOD_SHAPES = [None, None, [oc_mod.minimise], (oc_mod.minimise, remove_default_routes.minimise),
+                 [remove_default_routes.minimise, oc_mod.minimise], (remove_default_routes.minimise,)]
+METHOD_NAMES = ["default", "default", "[oc]", "(oc, rdr)", "[rdr, oc]", "(rdr,)"]
+
+
+def system_info_of(machine, busy, rtr_free=None):
+    """a SystemInfo describing `machine` (all cores idle except `busy` {(x, y): set(cores)}); `rtr_free` {(x, y): n}
+    is the free router space a chip reports (1023 where not given)"""
+    rtr_free = rtr_free or {}
     chips = {}
     for (x, y) in machine:
         ncores = machine[(x, y)][Cores]
@@ -223,7 +358,7 @@ def system_info_of(machine, busy):
         chips[(x, y)] = ChipInfo(num_cores=ncores, core_states=states, working_links=links,
                                  largest_free_sdram_block=machine[(x, y)][SDRAM],
                                  largest_free_sram_block=machine[(x, y)].get(SRAM, 0),
-                                 largest_free_rtr_mc_block=1023, ethernet_up=(x, y) == (0, 0),
+                                 largest_free_rtr_mc_block=rtr_free.get((x, y), 1023), ethernet_up=(x, y) == (0, 0),
                                  ip_address="127.0.0.1", local_ethernet_chip=(0, 0))
     si = SystemInfo(machine.width, machine.height, chips)
     return si
@@ -286,6 +421,31 @@ def make_trace(chk, rng, machine, nets, net_keys, placements, allocations, cons,
     return tr
 
 
+class PipelineDidNotReturn(Exception):
+    """a call into rig was still running after CALL_LIMIT seconds (the real tree needs milliseconds): recorded as a
+    "raise" event like any other undocumented way to end, instead of the check standing still until its wall limit"""
+
+
+CALL_LIMIT = float(os.environ.get("VERIF_C01_CALL_LIMIT", "20"))
+
+
+class call_limit(object):
+    def __enter__(self):
+        self.on = hasattr(signal, "setitimer") and threading.current_thread() is threading.main_thread()
+        if self.on:
+            def fire(signum, frame):
+                raise PipelineDidNotReturn("no result after %g s" % CALL_LIMIT)
+            self.old = signal.signal(signal.SIGALRM, fire)
+            signal.setitimer(signal.ITIMER_REAL, CALL_LIMIT)
+        return self
+
+    def __exit__(self, *exc):
+        if self.on:
+            signal.setitimer(signal.ITIMER_REAL, 0)
+            signal.signal(signal.SIGALRM, self.old)
+        return False
+
+
 def failure_trace(machine, label, ex):
     """the pipeline ended with an exception that is not one of the documented ways to fail"""
     tr = proj.machine_json(machine)
@@ -304,35 +464,51 @@ def run(chk):
     chk.count("design variants refuted as expected (wrong default-route removal rule)")
     traces = []
     nprob = chk.pick(500, 6000)
+    nextra = chk.pick(45, 450)
+    rng2 = random.Random(chk.seed * 104729 + 17)      # decisions added later draw here: the main stream is unchanged
     ended = {}
-    for i in range(nprob):
-        p = gen_problem(rng, chk)
+    fams = {}
+    for i in range(nprob + nextra):
+        fam, hints = "main", {}
+        if i < nprob:
+            p = gen_problem(rng, chk)
+        else:
+            p, fam, hints = gen_extra_problem(rng, chk, i - nprob)
         if p is None:
             continue
         vr, nets, net_keys, m, cons = p
-        pname, pk = PLACERS[i % len(PLACERS)]
+        pname, pk = PLACERS[hints.get("placer", i % len(PLACERS))]
         radius = rng.choice((0, 1, 2, 20))
+        radius = hints.get("radius", radius)
+        fams[fam] = fams.get(fam, 0) + 1
+        ftag = "" if fam == "main" else " [%s]" % fam
         rs = chk.seed * 7919 + i
         random.seed(rs)
         kw = pk(rs)
         place_f = kw.get("place", default_place)
         try:
-            placements = place_f(vr, nets, m, cons, **kw.get("place_kwargs", {}))
-            allocations = allocate(vr, nets, m, cons, placements)
-            routes = route(vr, nets, m, cons, placements, allocations, Cores, radius)
-            tables0 = routing_tree_to_tables(routes, net_keys)
+            with call_limit():
+                placements = place_f(vr, nets, m, cons, **kw.get("place_kwargs", {}))
+                allocations = allocate(vr, nets, m, cons, placements)
+                routes = route(vr, nets, m, cons, placements, allocations, Cores, radius)
+                tables0 = routing_tree_to_tables(routes, net_keys)
         except GUARDS as ex:
             ended[type(ex).__name__] = ended.get(type(ex).__name__, 0) + 1
             continue
         except Exception as ex:                  # judged by the specification (OnlyDocumentedErrors)
-            traces.append(failure_trace(m, "hand %s r=%d" % (pname, radius), ex))
+            traces.append(failure_trace(m, "hand %s r=%d%s" % (pname, radius, ftag), ex))
             continue
         for mname, methods in MINIMISERS:
             n_max = max([len(t) for t in tables0.values()] or [0])
             for tgt in ([None] if methods is None else [None, rng.choice((0, max(1, n_max // 2), n_max, 1023))]):
-                label = "hand %s r=%d min=%s target=%s" % (pname, radius, mname, tgt)
+                label = "hand %s r=%d min=%s target=%s%s" % (pname, radius, mname, tgt, ftag)
+                if i >= nprob and tgt is not None and rng.random() < 0.5:
+                    # the other documented shape of the targets: a dictionary chip -> length or None
+                    tgt = {chip: rng.choice((tgt, tgt, None, 1023, len(t))) for chip, t in tables0.items()}
+                    label = "hand %s r=%d min=%s target=per chip%s" % (pname, radius, mname, ftag)
                 try:
-                    tables = tables0 if methods is None else minimise_tables(tables0, tgt, methods)
+                    with call_limit():
+                        tables = tables0 if methods is None else minimise_tables(tables0, tgt, methods)
                 except GUARDS as ex:
                     ended[type(ex).__name__] = ended.get(type(ex).__name__, 0) + 1
                     continue
@@ -345,7 +521,7 @@ def run(chk):
                 chk.note_case((label, traces[-1]["tables"], traces[-1]["nets"]),
                               nontrivial=any(len(t[2]) > 1 for t in traces[-1]["tables"]))
         # through the wrappers
-        if i % 3 == 0:
+        if i % 3 == 0 or (i >= nprob and fam != "broadcast"):
             busy = {}
             if rng.random() < 0.5:
                 for xy in rng.sample(list(m), min(3, len(list(m)))):
@@ -364,8 +540,10 @@ def run(chk):
             wcore = OWN_CORES if own else Cores
             try:
                 random.seed(rs)
-                pl, al, amap, tabs = place_and_route_wrapper(wvr, apps, nets, net_keys, si, wcons,
-                                                             route_kwargs=dict(radius=radius), **dict(pk(rs), **wkw))
+                with call_limit():
+                    pl, al, amap, tabs = place_and_route_wrapper(wvr, apps, nets, net_keys, si, wcons,
+                                                                 route_kwargs=dict(radius=radius),
+                                                                 **dict(pk(rs), **wkw))
                 m2 = Machine(m.width, m.height, chip_resources=dict(m.chip_resources),
                              chip_resource_exceptions=dict(m.chip_resource_exceptions),
                              dead_chips=set(m.dead_chips), dead_links=set(m.dead_links))
@@ -375,10 +553,39 @@ def run(chk):
                 chk.note_case(("wrapper", traces[-1]["tables"], traces[-1]["nets"]))
                 # busy cores must not be used by any vertex
                 traces[-1]["busy"] = [[x, y, sorted(b)] for (x, y), b in sorted(busy_all.items())]
+                traces[-1]["label"] += ftag
+                # once more on a machine whose routers have little room left: the probe reports, chip by chip,
+                # less / exactly / just more than the unminimised tables need, so the wrapper's minimisation stage
+                # really runs (with 1023 free entries everywhere it never does), chip by chip with another outcome;
+                # the caller also chooses the methods
+                for rep in range(3 if (tabs and fam == "corridor") else 1 if tabs else 0):
+                    free = tight_router_space(rng2, tabs, list(m))
+                    shape = rng2.randrange(len(METHOD_SHAPES))
+                    mkw = {} if METHOD_SHAPES[shape] is None else dict(minimise_tables_methods=METHOD_SHAPES[shape])
+                    tlabel = "place_and_route_wrapper %s r=%d little router space methods=%s%s" % (
+                        pname, radius, METHOD_NAMES[shape], ftag)
+                    try:
+                        random.seed(rs)
+                        with call_limit():
+                            pl, al, amap, tabs2 = place_and_route_wrapper(
+                                wvr, apps, nets, net_keys, system_info_of(m, busy_all, free), wcons,
+                                route_kwargs=dict(radius=radius), **dict(pk(rs), **dict(wkw, **mkw)))
+                        traces.append(make_trace(chk, rng2, m2, nets, net_keys, pl, al, wcons, tabs2, tlabel, core=wcore))
+                        chk.note_case(("wrapper-tight", traces[-1]["tables"], traces[-1]["nets"]))
+                        chk.count("wrapper runs on routers with little room")
+                        if any(len(tabs2.get(c, ())) < len(t) for c, t in tabs.items()):
+                            chk.count("wrapper runs on routers with little room: some table came back shorter")
+                        if any((e.key, e.mask) not in {(o.key, o.mask) for o in tabs.get(c, ())}
+                               for c, t in tabs2.items() for e in t):
+                            chk.count("wrapper runs on routers with little room: some table came back with merged entries")
+                    except GUARDS as ex:
+                        ended[type(ex).__name__] = ended.get(type(ex).__name__, 0) + 1
+                    except Exception as ex:
+                        traces.append(failure_trace(m, tlabel, ex))
             except GUARDS as ex:
                 ended[type(ex).__name__] = ended.get(type(ex).__name__, 0) + 1
             except Exception as ex:
-                traces.append(failure_trace(m, "place_and_route_wrapper %s r=%d" % (pname, radius), ex))
+                traces.append(failure_trace(m, "place_and_route_wrapper %s r=%d%s" % (pname, radius, ftag), ex))
             try:
                 with warnings.catch_warnings():
                     warnings.simplefilter("ignore")
@@ -392,16 +599,20 @@ def run(chk):
                         okw = dict(core_resource=OWN_CORES, sdram_resource=OWN_SDRAM)
                     else:
                         mo, okw = m, {}
-                    pl, al, amap, tabs = old_wrapper(wvr, apps, nets, net_keys, mo, wcons,
-                                                     route_kwargs=dict(radius=radius), **dict(pk(rs), **okw))
+                    with call_limit():
+                        pl, al, amap, tabs = old_wrapper(wvr, apps, nets, net_keys, mo, wcons,
+                                                         route_kwargs=dict(radius=radius), **dict(pk(rs), **okw))
                 traces.append(make_trace(chk, rng, m, nets, net_keys, pl, al, wcons, tabs,
                                          "deprecated wrapper %s r=%d%s" % (pname, radius, " own resource names" if own else ""),
                                          core=wcore))
                 chk.note_case(("old-wrapper", traces[-1]["tables"], traces[-1]["nets"]))
+                traces[-1]["label"] += ftag
             except GUARDS as ex:
                 ended[type(ex).__name__] = ended.get(type(ex).__name__, 0) + 1
             except Exception as ex:
-                traces.append(failure_trace(m, "deprecated wrapper %s r=%d" % (pname, radius), ex))
+                traces.append(failure_trace(m, "deprecated wrapper %s r=%d%s" % (pname, radius, ftag), ex))
+    for k, v in sorted(fams.items()):
+        chk.count("problems of family %s" % k, v)
     for k, v in ended.items():
         chk.count("pipeline runs ended by %s (no verdict: the documented way to fail)" % k, v)
     chk.count("packets injected", sum(len(t["ev"]) - 1 for t in traces))
@@ -411,8 +622,16 @@ def run(chk):
                 "weights 0/int/float; orthogonal key/masks over %d bits) x placer (7, rotating) x radius x "
                 "{no minimisation, default-route removal, ordered covering, chain} x targets, by hand and through "
                 "both wrappers; every net's packet is injected with its key, the all-ones completion of its key and "
-                "random matching keys. non-trivial = some chip has more than one entry; distinct = distinct "
-                "(tables, nets)" % (nprob, chk.pick(7, 12), chk.pick(7, 12), KW))
+                "random matching keys. Then %d further problems of four families: broadcast-sized nets (fan-out "
+                "half to all of 20-130 vertices) on faulty 8x8..13x13 machines with router radius 1-2; ordinary "
+                "vertices that need no core (memory only / zero cores / nothing) as sources and sinks; corridors "
+                "(4-8 x 1-2 chips, one pinned vertex per chip, 8-18 nets with neighbouring keys passing through); "
+                "dense tables - with per-chip dictionaries of targets by hand. Every successful call of the new "
+                "wrapper is repeated on a machine whose routers report little free space (1-3 chips less than "
+                "their table needs, the others exactly / one more / plenty) with the caller's choice of methods. "
+                "A call into rig that has not returned after %g s is a judged event. "
+                "non-trivial = some chip has more than one entry; distinct = distinct "
+                "(tables, nets)" % (nprob, chk.pick(7, 12), chk.pick(7, 12), KW, nextra, CALL_LIMIT))
     chk.exhaustive = False
     if traces:
         chk.sample(dict(traces[0], tables=traces[0]["tables"][:3]))
